@@ -380,6 +380,59 @@ inline std::string log_diff(std::vector<CallRec> const& obs, std::vector<CallRec
     return "";
 }
 
+// ---- element types whose comparison operators are mutually inconsistent or partial
+// RT: ordered by rank only, equal on rank AND tag (so !(a<b) && !(b<a) does not imply a==b)
+struct RT {
+    int rank, tag;
+    friend bool operator<(RT const& a, RT const& b) { return a.rank < b.rank; }
+    friend bool operator==(RT const& a, RT const& b) { return a.rank == b.rank && a.tag == b.tag; }
+};
+// OnlyLess: has < and nothing else; OnlyEq: has == and nothing else
+struct OnlyLess {
+    int v;
+    friend bool operator<(OnlyLess const& a, OnlyLess const& b) { return a.v < b.v; }
+};
+struct OnlyEq {
+    int v;
+    friend bool operator==(OnlyEq const& a, OnlyEq const& b) { return a.v == b.v; }
+};
+// Cnt: every comparison operator exists, is consistent, and counts its calls (which operators a pair/tuple relation uses
+// on its elements is observable)
+struct CmpCounts {
+    int lt = 0, gt = 0, le = 0, ge = 0, eq = 0, ne = 0;
+    void clear() { *this = CmpCounts{}; }
+    std::string kinds() const
+    {
+        std::string s;
+        if (lt) { s += "<"; }
+        if (gt) { s += s.empty() ? ">" : ",>"; }
+        if (le) { s += s.empty() ? "<=" : ",<="; }
+        if (ge) { s += s.empty() ? ">=" : ",>="; }
+        if (eq) { s += s.empty() ? "==" : ",=="; }
+        if (ne) { s += s.empty() ? "!=" : ",!="; }
+        return s.empty() ? "none" : s;
+    }
+    std::string show() const
+    {
+        return "<:" + std::to_string(lt) + " >:" + std::to_string(gt) + " <=:" + std::to_string(le) + " >=:" + std::to_string(ge) + " ==:" + std::to_string(eq)
+             + " !=:" + std::to_string(ne);
+    }
+};
+inline CmpCounts& cmpcounts()
+{
+    static CmpCounts c;
+    return c;
+}
+struct Cnt {
+    int v;
+    friend bool operator<(Cnt const& a, Cnt const& b) { return ++cmpcounts().lt, a.v < b.v; }
+    friend bool operator>(Cnt const& a, Cnt const& b) { return ++cmpcounts().gt, a.v > b.v; }
+    friend bool operator<=(Cnt const& a, Cnt const& b) { return ++cmpcounts().le, a.v <= b.v; }
+    friend bool operator>=(Cnt const& a, Cnt const& b) { return ++cmpcounts().ge, a.v >= b.v; }
+    friend bool operator==(Cnt const& a, Cnt const& b) { return ++cmpcounts().eq, a.v == b.v; }
+    friend bool operator!=(Cnt const& a, Cnt const& b) { return ++cmpcounts().ne, a.v != b.v; }
+};
+
 // CI: a class element comparable with int (== and <=> against int and against itself)
 struct CI {
     int v;
